@@ -18,7 +18,7 @@ REQUIRED_BRANCHES = [
     "d-hit-scored", "d-stats-as-logical-corpus", "d-multi-segment", "d-single-segment", "d-pending-deletions", "d-no-pending-deletions",
     "d-n-lt-N", "d-n-eq-N", "d-b1", "d-b0", "d-composite-field", "d-ice-v1", "d-ice-v2", "d-mem", "d-fs", "d-merging", "d-no-merging",
     "dmatchset-nonempty", "op:dsearch", "op:normrt",
-    "score-none-zero", "score-none-nan",              # score mode "none": Score(0, 0) = 0 for b < 1 and NaN for b = 1 (reported, outside 1 <= f)
+    "score-none-zero",                                # score mode "none": Score(0, 0) = 0 for b < 1 (and NaN for b = 1, branch score-none-nan: reported, outside 1 <= f)
 ]
 
 ASSUMPTIONS = [
